@@ -1,3 +1,3 @@
 (* Everything the extracted model consists of (no proofs): building this file builds the
    executable model even when a proof file is broken. *)
-From PV Require Export Lib.Bytes Lib.GoInt Lib.Utf8 gen.Tables gen.Scalar Model.EscFilters Model.Lexer Model.Api.
+From PV Require Export Lib.Bytes Lib.GoInt Lib.Utf8 gen.Tables gen.Scalar Model.EscFilters Model.Lexer Model.Api Model.SetModel.
